@@ -3,6 +3,7 @@ use crate::rng::Rng;
 pub mod alloc;
 pub mod bench;
 pub mod fmt;
+pub mod mac;
 pub mod paint;
 pub mod reg;
 pub mod sort;
@@ -15,6 +16,7 @@ pub fn gen(lab: &str, rng: &mut Rng, n: usize) -> Vec<String> {
         "alloc" => alloc::gen(rng, n),
         "fmt" => fmt::gen(rng, n),
         "reg" => reg::gen(rng, n),
+        "mac" => mac::gen(rng, n),
         "paint" => paint::gen(rng, n),
         l if l.starts_with("bench-p") => bench::gen(rng, n, l["bench-p".len()..].parse().unwrap()),
         "ovw" => reg::gen_ovw(rng, n),
@@ -32,6 +34,7 @@ pub fn exec(verb: &str, req: &str) -> String {
         "fd" | "f64" | "bytes" | "thr" => fmt::exec(verb, &toks),
         "natcmp" | "natcmp3" | "argcmp" | "argsort" => sort::exec(verb, &toks),
         "reg" => reg::exec(verb, &toks),
+        "mac" => mac::exec_batch(&[req.to_string()]).pop().unwrap(),
         "paint" => paint::exec(&toks),
         "bench" => bench::exec(&toks),
         "ovw" => reg::exec_ovw(&toks),
